@@ -46,6 +46,11 @@ EXPLANATION = (
     "PyRates' own code is one of four frozen, justified sites.  R6 must-pass obligations for check_vname (each variable handed to the OperatorIR is name-checked; each reserved-name "
     "table is enforced by a raise), the single-output raise, the leftover value_updates raise, the cycle raise, the EdgeIR.output "
     "raise.  R7 every fixed-step solver override feeds a DDEHistory after the step or refuses it before integrating (D-14).  "
+    "R8 every method of ir/operator_graph.py that pairs a supplied value dict (a dict parameter or an entry of one) with the declared "
+    "variable table of an operator (`self.<...>[op]['variables']`) iterates over the SUPPLIED keys and indexes the declared table with "
+    "each of them on every path of the iteration (the KeyError is the only report of a node-level value addressed to a variable that "
+    "does not exist); iterating the declared side and looking the value up, or testing / `.get`-ting the key without a raise or warning, "
+    "leaves unknown supplied keys unexamined (R5-C20 seed).  "
     "Lint on every constant string table these rules read (SUPPORTED_SOLVERS in R1, the backend tables of _validate_backend_args in "
     "R3, the reserved names / name parts of check_vname in R6, local or module level): no element is an implicit concatenation of "
     "adjacent string literals (a lost comma merges two entries into one that matches nothing); decided on the token stream of the "
@@ -2358,6 +2363,212 @@ def r7_history_fed_or_refused(ctx, rid):
                           facts, label="history fed or refused")
 
 
+# ------------------------------------------------------------------------------------------------
+# R8 — every key of a supplied value dict is examined against the declared variables
+# ------------------------------------------------------------------------------------------------
+_KEY_VIEWS = ("items", "keys")
+
+
+def _iter_base(e: ast.AST):
+    """(collection expression, yields (key, value) pairs?) of a loop iterable: `d`, `d.keys()`, `d.items()`, possibly wrapped in
+    list()/sorted()/tuple()/set()."""
+    while isinstance(e, ast.Call) and isinstance(e.func, ast.Name) and e.func.id in ("list", "sorted", "tuple", "set", "iter") and len(e.args) == 1:
+        e = e.args[0]
+    if isinstance(e, ast.Call) and isinstance(e.func, ast.Attribute) and e.func.attr in _KEY_VIEWS and not e.args:
+        return e.func.value, e.func.attr == "items"
+    return e, False
+
+
+def _value_dict_roles(ctx, f):
+    """Role predicates for a method that writes supplied values into the declared variables of an operator graph:
+    is_declared(e): `e` is the variable table of an operator of this graph (`self.<nodes|operators|...>[op]["variables"]`, possibly
+    through single-definition locals); is_supplied(e): `e` is (an entry of) a dict parameter of the method."""
+    params = {p for p in f.params if p != f.self_name}
+    rd = ctx.rd(f)
+
+    def root_name(e):
+        while isinstance(e, (ast.Subscript, ast.Attribute, ast.Call)):
+            e = e.value if not isinstance(e, ast.Call) else e.func
+        return e.id if isinstance(e, ast.Name) else None
+
+    def is_declared(e, depth=0):
+        if isinstance(e, ast.Name) and depth < 4 and getattr(e, "_parent", None) is not None and isinstance(e.ctx, ast.Load):
+            v = single_def_value(ctx, f, e)
+            return v is not None and is_declared(v, depth + 1)
+        return isinstance(e, ast.Subscript) and isinstance(e.slice, ast.Constant) and e.slice.value == "variables" \
+            and f.self_name is not None and root_name(e.value) == f.self_name
+
+    def is_supplied(e, depth=0):
+        if isinstance(e, ast.Name):
+            if e.id in params and not _stores(f, e.id):
+                return True
+            if depth >= 4 or getattr(e, "_parent", None) is None or not isinstance(e.ctx, ast.Load):
+                return False
+            defs = rd.defs_reaching(e)
+            if not defs:
+                return False
+            for d in defs:
+                if isinstance(d, (ast.For, ast.AsyncFor)):
+                    base, pairs = _iter_base(d.iter)
+                    t = d.target
+                    if pairs and isinstance(t, (ast.Tuple, ast.List)) and len(t.elts) == 2 and isinstance(t.elts[1], ast.Name) \
+                            and t.elts[1].id == e.id and is_supplied(base, depth + 1):
+                        continue
+                    return False
+                from engine.dataflow import assigned_value
+                v = assigned_value(d, e.id) if isinstance(d, ast.AST) else None
+                if v is None or not is_supplied(v, depth + 1):
+                    return False
+            return True
+        if isinstance(e, ast.Subscript):
+            return is_supplied(e.value, depth + 1)
+        if isinstance(e, ast.Call) and isinstance(e.func, ast.Attribute) and e.func.attr in ("get", "pop") and e.args:
+            return is_supplied(e.func.value, depth + 1)
+        return False
+    return is_declared, is_supplied
+
+
+def _keys_base(e: ast.AST) -> ast.AST:
+    """`d` for `set(d)`, `d.keys()`, `set(d.keys())`, `frozenset(d)`, `list(d)`."""
+    while True:
+        if isinstance(e, ast.Call) and isinstance(e.func, ast.Name) and e.func.id in ("set", "frozenset", "list", "tuple", "sorted") and len(e.args) == 1:
+            e = e.args[0]
+        elif isinstance(e, ast.Call) and isinstance(e.func, ast.Attribute) and e.func.attr == "keys" and not e.args:
+            e = e.func.value
+        else:
+            return e
+
+
+def _difference_reported(ctx, f, cfg, is_supplied, is_declared) -> Optional[ast.AST]:
+    """A statement that reports (raise / warn on every continuation) the supplied keys that are not declared variables:
+    `if set(S) - set(D): raise`, `for k in S.keys() - D.keys(): raise`, `if not set(S) <= set(D): raise`,
+    `if [k for k in S if k not in D]: raise`; the difference may be bound to a local first."""
+    def is_diff(e, depth=0):
+        if isinstance(e, ast.Name) and depth < 3 and getattr(e, "_parent", None) is not None and isinstance(e.ctx, ast.Load):
+            v = single_def_value(ctx, f, e)
+            return v is not None and is_diff(v, depth + 1)
+        if isinstance(e, ast.Call) and isinstance(e.func, ast.Name) and e.func.id in ("sorted", "list", "tuple", "set", "len") and len(e.args) == 1:
+            return is_diff(e.args[0], depth)
+        if isinstance(e, ast.BinOp) and isinstance(e.op, ast.Sub):
+            return is_supplied(_keys_base(e.left)) and is_declared(_keys_base(e.right))
+        if isinstance(e, ast.Call) and isinstance(e.func, ast.Attribute) and e.func.attr == "difference" and len(e.args) == 1:
+            return is_supplied(_keys_base(e.func.value)) and is_declared(_keys_base(e.args[0]))
+        if isinstance(e, (ast.ListComp, ast.SetComp, ast.GeneratorExp)) and len(e.generators) == 1 and isinstance(e.generators[0].target, ast.Name):
+            g = e.generators[0]
+            k = g.target.id
+            return is_supplied(_iter_base(g.iter)[0]) and len(g.ifs) == 1 and isinstance(g.ifs[0], ast.Compare) and len(g.ifs[0].ops) == 1 \
+                and isinstance(g.ifs[0].ops[0], ast.NotIn) and isinstance(g.ifs[0].left, ast.Name) and g.ifs[0].left.id == k \
+                and is_declared(_keys_base(g.ifs[0].comparators[0]))
+        return False
+
+    def is_subset(e):
+        if isinstance(e, ast.Compare) and len(e.ops) == 1 and isinstance(e.ops[0], (ast.LtE, ast.Lt)):
+            return is_supplied(_keys_base(e.left)) and is_declared(_keys_base(e.comparators[0]))
+        if isinstance(e, ast.Call) and isinstance(e.func, ast.Attribute) and e.func.attr == "issubset" and len(e.args) == 1:
+            return is_supplied(_keys_base(e.func.value)) and is_declared(_keys_base(e.args[0]))
+        return False
+
+    def reports_all(starts, loop=None):
+        def rep(x):
+            return isinstance(x, ast.Raise) or (isinstance(x, ast.stmt) and _is_warn(ctx, f, x))
+        return find_path(cfg, starts, lambda x: x is cfg.EXIT or (loop is not None and x is loop), avoid=rep, edge_ok=_raise_edge_ok(ctx, f)) is None
+    for st in cfg.stmts():
+        if isinstance(st, ast.If):
+            e, neg = _strip_not(st.test)
+            if isinstance(e, ast.Compare) and len(e.ops) == 1 and isinstance(e.ops[0], (ast.Gt, ast.NotEq)) \
+                    and isinstance(e.comparators[0], ast.Constant) and e.comparators[0].value == 0:
+                e = e.left                                   # len(diff) > 0
+            if (is_diff(e) and not neg and reports_all(succ(cfg, st, "true"))) \
+                    or (is_subset(e) and reports_all(succ(cfg, st, "true" if neg else "false"))):
+                return st
+        elif isinstance(st, (ast.For, ast.AsyncFor)) and is_diff(st.iter) and reports_all(succ(cfg, st, "iter"), loop=st):
+            return st
+    return None
+
+
+def r8_supplied_keys_examined(ctx, rid):
+    n = 0
+    for f in sorted(ctx.repo.all_functions(), key=lambda x: x.qual):
+        if f.module.rel != OPGRAPH_IR or f.cls is None or f.self_name is None:
+            continue
+        is_declared, is_supplied = _value_dict_roles(ctx, f)
+        cfg = ctx.cfg(f)
+        examined, declared_side, silent_skip, other = [], [], [], []
+        for L in [x for x in walk_shallow(f.node) if isinstance(x, (ast.For, ast.AsyncFor))]:
+            base, pairs = _iter_base(L.iter)
+            t = L.target
+            if pairs:
+                k = t.elts[0].id if isinstance(t, (ast.Tuple, ast.List)) and len(t.elts) == 2 and isinstance(t.elts[0], ast.Name) else None
+            else:
+                k = t.id if isinstance(t, ast.Name) else None
+            side = "supplied" if is_supplied(base) else ("declared" if is_declared(base) else None)
+            if side is None:
+                continue
+            other_is = is_declared if side == "supplied" else is_supplied
+            body_nodes = [x for b in L.body for x in ast.walk(b)]
+            if not any(other_is(x) for x in body_nodes if isinstance(x, (ast.Name, ast.Subscript))):
+                continue          # the loop does not pair the two sides
+            if k is None or any(isinstance(x, ast.Name) and x.id == k and isinstance(x.ctx, ast.Store) for x in body_nodes):
+                other.append((L, k, None))      # the key cannot be followed; decides nothing by itself
+                continue
+
+            def keyed(x, pred):
+                """`x` looks the loop key up in the collection described by `pred`: (kind, node) or None"""
+                if isinstance(x, ast.Subscript) and isinstance(x.slice, ast.Name) and x.slice.id == k and pred(x.value):
+                    return "index"
+                if isinstance(x, ast.Call) and isinstance(x.func, ast.Attribute) and x.func.attr in ("get", "pop", "setdefault") and x.args \
+                        and isinstance(x.args[0], ast.Name) and x.args[0].id == k and pred(x.func.value):
+                    return "get" if (x.func.attr != "pop" or len(x.args) > 1) else "index"
+                if isinstance(x, ast.Compare) and len(x.ops) == 1 and isinstance(x.ops[0], (ast.In, ast.NotIn)) \
+                        and isinstance(x.left, ast.Name) and x.left.id == k and pred(_iter_base(x.comparators[0])[0]):
+                    return "in"
+                return None
+            if side == "declared":
+                hits = [x for x in body_nodes if keyed(x, is_supplied)]
+                (declared_side if hits else other).append((L, k, hits))
+                continue
+            # the loop runs over the supplied keys: the declared table must be indexed with every one of them
+            def checks(st):
+                return isinstance(st, ast.Raise) or (isinstance(st, ast.stmt) and _is_warn(ctx, f, st)) \
+                    or (isinstance(st, ast.stmt) and any(keyed(x, is_declared) == "index" for x in header_nodes(st)))
+            w = find_path(cfg, succ(cfg, L, "iter"), lambda x: x is L or x is cfg.EXIT, avoid=checks, edge_ok=_raise_edge_ok(ctx, f))
+            if w is None:
+                examined.append((L, k))
+            elif any(isinstance(x, ast.stmt) and any(keyed(y, is_declared) in ("in", "get") for y in header_nodes(x)) for x in w):
+                silent_skip.append((L, k, w))
+            else:
+                other.append((L, k, w))
+        if not (examined or declared_side or silent_skip or other):
+            continue
+        n += 1
+        label = "supplied value keys examined against the declared variables"
+        diff = _difference_reported(ctx, f, cfg, is_supplied, is_declared) if not examined else None
+        if diff is not None:
+            ctx.ok(rid, f, diff, "supplied keys that are not declared variables are reported by an explicit difference / subset test",
+                   {"test": norm(diff, 100)}, label=label)
+        elif silent_skip and not examined:
+            L, k, w = silent_skip[0]
+            ctx.violation(rid, f, L, f"{f.qualname} tests / fetches the supplied key `{k}` in the declared variables without raising or warning when it "
+                                     f"is absent ({cfg.path_str([L] + w)}): a value addressed to a variable that does not exist is skipped silently",
+                          {"witness": cfg.path_str([L] + w)}, label=label)
+        elif declared_side and not examined:
+            L, k, hits = declared_side[0]
+            ctx.violation(rid, f, L, f"{f.qualname} iterates over the DECLARED variables (`{norm(L.iter, 60)}`) and looks each one up in the supplied value "
+                                     f"dict (`{norm(hits[0], 60)}`): keys of the supplied dict that are not declared variables are never examined, so a "
+                                     f"node-level value / parameter update addressed to a variable that does not exist is dropped without an "
+                                     f"exception or warning (only iterating the supplied keys and indexing the declared table reports it)",
+                          {"loop": norm(L, 100)}, label=label)
+        elif examined:
+            L, k = examined[0]
+            ctx.ok(rid, f, L, f"every supplied key `{k}` indexes the declared variable table (KeyError for an unknown variable) on every path of the "
+                              f"iteration", {"loop": norm(L, 100)}, label=label)
+        else:
+            L = other[0][0]
+            raise AnalysisError(f"{rid}: {f.qual}: `{norm(L, 80)}` pairs supplied values with declared variables in a form that is not recognised; "
+                                f"cannot decide whether unknown keys are reported")
+    ctx.require(n >= 1, f"{rid}: no method pairing a supplied value dict with the declared variables found in {OPGRAPH_IR} (anchor vanished)")
+
+
 RULES = [
     ("C20-R1", r1_solver_validation, 20),
     ("C20-R2", r2_capability_flags, 8),
@@ -2366,4 +2577,5 @@ RULES = [
     ("C20-R5", r5_raised_not_built, 8),
     ("C20-R6", r6_remaining_guards, 7),
     ("C20-R7", r7_history_fed_or_refused, 3),
+    ("C20-R8", r8_supplied_keys_examined, 2),
 ]
